@@ -4,6 +4,7 @@ Model: BV.Ash (mirrors bellows/ash.py, constants generated from the source).
 Spec:  BV.Spec.Ash (written independently with plain arithmetic).
 -/
 import BV.Proofs.Ash.FrameLemmas
+import BV.Proofs.Src.Ash
 namespace BV.Props.C03
 open BV.Ash BV.Spec.Ash BV.Gen.Ash
 
@@ -141,5 +142,69 @@ theorem c03_crc_detects_1_2_bit_errors (d e : List UInt8) (f : Frame) (hok : par
 
 example : (parse [0xC1, 0x02, 0x0B, 0x0A, 0x52]).toOption = some (.rstack 2 0x0B) ∧
     weight [0, 0x40, 0, 0, 0x01] = 2 := by decide +kernel
+
+
+/-! ## the same statements over the definitions generated from the source text (BV/Gen/SrcAsh.lean)
+
+`BV.Src.Ash.*` below are not hand-written: harness/pytrans.py produces them from the syntax tree of
+bellows/ash.py on every run.  These theorems are therefore re-checked against the code as it is now. -/
+
+section Source
+open BV.Proofs.Src.Ash
+open BV.Py (PyErr)
+
+/-- `generate_random_sequence(256)` of the source is the LFSR sequence of the specification -/
+theorem c03_src_lfsr : BV.Src.Ash.generate_random_sequence 256 = .ok randSeq := by
+  rw [generate_random_sequence_256, c03_lfsr]
+
+/-- `_stuff_bytes` of the source is the specification's stuffing, never raises, and what it produces
+is undone by `_unstuff_bytes` of the source -/
+theorem c03_src_stuff (bs : List UInt8) :
+    BV.Src.Ash.stuff_bytes bs = .ok (specStuff bs) ∧
+    BV.Src.Ash.unstuff_bytes (specStuff bs) = .ok bs := by
+  refine ⟨by rw [stuff_eq, c03_stuff_spec], ?_⟩
+  rw [unstuff_eq, ← c03_stuff_spec, c03_unstuff_stuff]
+  simp [unstuffRes]
+
+/-- `_unstuff_bytes` of the source on *any* byte string: the model's result, or `ParsingError` exactly when
+an escape is followed by a byte that does not decode to a reserved value -/
+theorem c03_src_unstuff (bs : List UInt8) :
+    BV.Src.Ash.unstuff_bytes bs = match unstuff bs with
+      | some r => .ok r
+      | none => .error (.raised "ParsingError") := by
+  rw [unstuff_eq]; cases unstuff bs <;> simp [unstuffRes]
+
+/-- `frame.to_bytes()` of the source lays every well-formed frame out as the specification says -/
+theorem c03_src_to_bytes (f : Frame) (h : f.WF) :
+    BV.Src.Ash.Frame.to_bytes (ofM f) = .ok (specEncode f) := by
+  rw [to_bytes_eq f h, c03_layout f h]
+
+/-- `parse_frame` of the source inverts `to_bytes` of the source on every well-formed frame -/
+theorem c03_src_parse_encode (f : Frame) (h : f.WF) :
+    ∃ bs, BV.Src.Ash.Frame.to_bytes (ofM f) = .ok bs ∧ parsed bs = some f := by
+  refine ⟨encode f, to_bytes_eq f h, ?_⟩
+  rw [parse_frame_eq, c03_parse_encode f h]; rfl
+
+/-- `parse_frame` of the source accepts exactly what the model's parser accepts, with the same fields -/
+theorem c03_src_parse (d : List UInt8) : parsed d = (parse d).toOption := parse_frame_eq d
+
+theorem parsed_some_iff (d : List UInt8) (f : Frame) : parsed d = some f ↔ parse d = .ok f := by
+  rw [parse_frame_eq]
+  cases parse d <;> simp [Except.toOption]
+
+/-- `parse_frame` of the source never accepts a 1- or 2-bit corruption of a frame it accepts (the CRC theorem,
+transported to the source-level parser) -/
+theorem c03_src_crc_detects (d e : List UInt8) (f : Frame) (hok : parsed d = some f)
+    (hl : d.length = e.length) (hlen : d.length ≤ 4095) (hw : weight e = 1 ∨ weight e = 2) :
+    parsed (xorBytes d e) = none := by
+  have h := c03_crc_detects_1_2_bit_errors d e f ((parsed_some_iff d f).mp hok) hl hlen hw
+  cases hp : parsed (xorBytes d e) with
+  | none => rfl
+  | some g => exact absurd ((parsed_some_iff _ g).mp hp) (h g)
+
+example : parsed [0x25, 0x42, 0x21, 0xa8, 0x56, 0xa6, 0x09] = some (.data 2 false 5 [0, 0, 0, 2]) := by
+  decide +kernel
+
+end Source
 
 end BV.Props.C03
